@@ -1,7 +1,7 @@
 (* Tensor/ContractZ.v — the integer instance of the tensor-network model, run by the extracted
    engine and by the in-kernel shards. *)
 From Coq Require Import List ZArith QArith.
-From QV Require Import Tensor.Sums Tensor.Net Tensor.StartStop Tensor.Contract.
+From QV Require Import Tensor.Sums Tensor.Net Tensor.StartStop Tensor.Contract Tensor.Sweep Tensor.Exact Tensor.WfCheck.
 Import ListNotations.
 
 Definition tensorZ := tensor Zring.
@@ -23,3 +23,4 @@ Definition bond_dimensionZ (m : colZ) : nat := bond_dimension Zring m.
 Definition start_stop_bools (l : list bool) : option (nat * nat) :=
   start_stop (map (fun b : bool => if b then Some tt else None) l).
 Definition split_contractZ (tn : list colZ) chi tol mask c : res Z := split_contract Zring tn chi tol mask c.
+Definition netwfbZ (r : nat) (tn : list colZ) : bool := netwfb Zring r tn.
